@@ -9,7 +9,8 @@ from datetime import date, datetime, timedelta, timezone
 LEAN = ['ICal.Props.C14']
 # ops body_al_add / body_al_repeat run lean/ICal/Gen/BodiesAlarm.lean (Alarms._add, Alarms._repeat, tools.is_date regenerated
 # by tools/py2lean.py); Props.C14 imports it too (ICal.Lemmas.BodiesAlarm): a translator failure there breaks this tie
-# op body_al_times runs the regenerated Alarms.times (with _get_*_alarm_times, _alarm_time) on the pieces of lean/ICal/Model/AlarmPieces.lean
+# ops body_al_times / body_al_state run the regenerated Alarms.add_component (with the setters, add_alarm) and Alarms.times (with
+# _get_*_alarm_times, _alarm_time) on the pieces of lean/ICal/Model/AlarmPieces.lean
 DRIVER_MODULES = ['ICal.Driver.BodiesAlarm', 'ICal.Driver.BodiesAlarmTimes', 'ICal.Driver.Alarm']
 LEVEL = 'proof'
 FINGERPRINTS = ['alarms.Alarms', 'alarms.AlarmTime', 'cal.Alarm', 'cal.create_utc_property', 'tools.to_datetime',
@@ -376,6 +377,20 @@ def impl_times(comp, encs, prepare=None):
     return 'ok' + ''.join('|' + enc_alarm_time(comp, encs, t) for t in ts)
 
 
+def impl_state(comp, encs, prepare=None):
+    """what Alarms(component) - add_component and the setters - leaves in the attributes (op body_al_state)"""
+    from icalendar.alarms import Alarms
+    try:
+        al = Alarms(comp)
+        if prepare:
+            prepare(al)
+    except Exception as e:  # noqa: BLE001
+        return exc_name(e)
+    idx = lambda lst: ','.join(str(alarm_index(comp, encs, a)) for a in lst)   # noqa: E731
+    return 'ok ' + ';'.join([idx(al._absolute_alarms), idx(al._start_alarms), idx(al._end_alarms), enc_val(al._start),
+                             enc_val(al._end), enc_inst(al._last_ack), enc_inst(al._snooze_until)])
+
+
 def impl_active(comp, encs, prepare=None):
     from icalendar.alarms import Alarms
     try:
@@ -488,8 +503,9 @@ def register_component(ctx, spec, prov, how, ltz=None, ops=('al_times',), nontri
     for op in ops:
         res = impl_times(comp, encs, prep) if op == 'al_times' else impl_active(comp, encs, prep)
         ctx.corr(op, args, res, nontrivial)
-        if op == 'al_times':      # the same case for the regenerated Alarms.times (the translator's own tie)
+        if op == 'al_times':      # the same case for the regenerated add_component + times, and for the attributes add_component leaves
             ctx.corr('body_al_times', args, res, nontrivial)
+            ctx.corr('body_al_state', args, impl_state(comp, encs, prep), nontrivial)
     return comp
 
 
